@@ -217,4 +217,21 @@ func main() {
 	}{{[]int{2, 4, 6}, 1}, {[]int{1, 2, 9, 11}, 5}, {[]int{3, 5}, 10}, {nil, 0}} {
 		eq(fmt.Sprintf("gen_FirstBig %s %s", zl(p.xs), z(int64(p.lim))), z(int64(sem.FirstBig(p.xs, p.lim))))
 	}
+	// ---- recursive closures (go_rec)
+	for _, l := range [][]int{{}, {5}, {1, 2, 3}, {4, -9, 7, 100, 3}} {
+		eq("gen_RecSum 50 "+zl(l), opt(z(int64(sem.RecSum(l)))))
+	}
+	eq("gen_RecSum 3 "+zl([]int{1, 2, 3}), "None")
+	eq("gen_RecSum 4 "+zl([]int{1, 2, 3}), opt(z(int64(sem.RecSum([]int{1, 2, 3})))))
+	tl, tr := []int{1, 3, -1, -1, -1, -1}, []int{2, 4, 5, -1, -1, -1}
+	for _, r := range []int{0, 1, 2, 5, -1, 9} {
+		o, d := sem.TreeOrder(tl, tr, r)
+		eq(fmt.Sprintf("gen_TreeOrder 20 %s %s %s", zl(tl), zl(tr), z(int64(r))), opt(fmt.Sprintf("%s, %s", zl(o), z(int64(d)))))
+	}
+	eq(fmt.Sprintf("gen_TreeOrder 3 %s %s (0)%%Z", zl(tl), zl(tr)), "None")
+	off, adj := []int{0, 2, 4, 5, 6, 6}, []int{1, 2, 3, 0, 3, 1}
+	for _, r := range []int{0, 1, 2, 3, 4} {
+		eq(fmt.Sprintf("gen_Reach 20 %s %s %s", zl(off), zl(adj), z(int64(r))), opt(zl(sem.Reach(off, adj, r))))
+	}
+	eq(fmt.Sprintf("gen_Reach 2 %s %s (0)%%Z", zl(off), zl(adj)), "None")
 }
